@@ -156,7 +156,27 @@ func c17(c *Ctx) {
 		for _, k := range ks {
 			sum.Add(sum, k)
 		}
-		switch r.Intn(9) {
+		switch r.Intn(10) {
+		case 9: // Select whose sub-query yields NULL for some elements: one result per element, in order, nulls included
+			if n == 0 {
+				continue
+			}
+			var objs2, want []*D
+			for i := 0; i < n; i++ {
+				var v *D = h.Nil()
+				if r.Intn(2) == 0 {
+					v = h.FloatD(float64(i + 1))
+				}
+				objs2 = append(objs2, h.Obj("opt", v, "id", h.FloatD(float64(i))))
+				want = append(want, v)
+			}
+			doc2 := h.Obj("xs", h.SliceAny(objs2...))
+			ec := c.AddEval(`$.xs.Select("$.opt")`, doc2, "select-null-results", true, true)
+			ec.Check = sameAbs(h.SliceAny(want...))
+			ec = c.AddEval(`$.xs.Select("$.opt").Count()`, doc2, "select-null-results", true, true)
+			ec.Check = exactly(big.NewRat(int64(n), 1))
+			ec = c.AddEval(`$.xs.Select("$.opt").Last()`, doc2, "select-null-results", true, true)
+			ec.Check = sameAbs(want[n-1])
 		case 0: // Select with a key sub-query: the values in order
 			ec := c.AddEval(`$.xs.Select("$.name")`, doc, "select-key", true, n > 0)
 			want := names
